@@ -24,6 +24,8 @@
   eafp      `x = D; if 'k' in kw: x = kw['k']` -> `try: x = kw['k']  except KeyError: x = D`
   filterloop `for x in it: if c: B` -> `for x in filter(lambda x: c, it): B`
   closure   the block of an `if` that binds no name and does not leave becomes a local function called in its place
+  annotate  every parameter and function gets a type annotation, the first plain assignment of every local becomes `x: T = v`
+  require   `if c: raise E('literal')` -> `_require_rw(not c, E, 'literal')` with a module-level helper
   modalias  every package module is imported under another name (`from . import trees as trees_m`)
   fromimp   functions / constants of other package modules are imported directly (`from .trees import children`) wherever
             no scope of the importing module binds the same name
@@ -660,11 +662,73 @@ class Closure(ast.NodeTransformer):
         return node
 
 
+class Annotate(ast.NodeTransformer):
+    """type hints everywhere: every parameter gets an annotation, every function a return annotation, the first plain
+    assignment of every local becomes an annotated assignment (annotations of locals are never evaluated)"""
+    def visit_FunctionDef(self, node):
+        self.generic_visit(node)
+        for a in node.args.posonlyargs + node.args.args + node.args.kwonlyargs:
+            if a.annotation is None and a.arg not in ('self', 'cls'):
+                a.annotation = ast.Constant(value='object')
+        if node.args.kwarg is not None and node.args.kwarg.annotation is None:
+            node.args.kwarg.annotation = ast.Constant(value='object')
+        if node.returns is None:
+            node.returns = ast.Constant(value='object')
+        done = set(a.arg for a in node.args.posonlyargs + node.args.args + node.args.kwonlyargs)
+        glob = set()
+        for x in ast.walk(node):
+            if isinstance(x, (ast.Global, ast.Nonlocal)):
+                glob.update(x.names)
+        new = []
+        for st in node.body:
+            if isinstance(st, ast.Assign) and len(st.targets) == 1 and isinstance(st.targets[0], ast.Name) \
+                    and st.targets[0].id not in done and st.targets[0].id not in glob:
+                done.add(st.targets[0].id)
+                new.append(ast.copy_location(ast.AnnAssign(target=st.targets[0], annotation=ast.Constant(value='object'),
+                                                           value=st.value, simple=1), st))
+            else:
+                new.append(st)
+        node.body = new
+        return node
+
+
+class Require(ast.NodeTransformer):
+    """if c: raise E(<literal message>)   ->   _require_rw(not c, E, <literal message>)     (helper added to the module; only
+    for messages that are plain literals, so nothing is evaluated that was not evaluated before)"""
+    def __init__(self):
+        self.used = False
+
+    def visit_If(self, node):
+        self.generic_visit(node)
+        if not node.orelse and len(node.body) == 1 and isinstance(node.body[0], ast.Raise) and node.body[0].cause is None \
+                and isinstance(node.body[0].exc, ast.Call) and isinstance(node.body[0].exc.func, ast.Name) \
+                and len(node.body[0].exc.args) == 1 and not node.body[0].exc.keywords \
+                and isinstance(node.body[0].exc.args[0], ast.Constant):
+            self.used = True
+            call = ast.Call(func=ast.Name(id='_require_rw', ctx=ast.Load()),
+                            args=[ast.UnaryOp(op=ast.Not(), operand=node.test), node.body[0].exc.func, node.body[0].exc.args[0]],
+                            keywords=[])
+            return ast.copy_location(ast.Expr(value=call), node)
+        return node
+
+    def visit_Module(self, node):
+        self.generic_visit(node)
+        if self.used:
+            helper = ast.parse('def _require_rw(cond, exc, message):\n    if not cond:\n        raise exc(message)\n').body[0]
+            i = 0
+            while i < len(node.body) and (isinstance(node.body[i], (ast.Import, ast.ImportFrom)) or (
+                    isinstance(node.body[i], ast.Expr) and isinstance(node.body[i].value, ast.Constant))):
+                i += 1
+            node.body.insert(i, helper)
+        return node
+
+
 REWRITES = {'alpha': Alpha, 'flip': Flip, 'notin': NotIn, 'noop': Noop, 'docs': Docs, 'unparse': None,
             'modalias': ModAlias, 'fromimp': FromImp, 'swapif': SwapIf, 'lenzero': LenZero, 'fstring': FString,
             'uncomp': UnComp, 'elseret': ElseRet, 'ternary': Ternary, 'hoistarg': HoistArg, 'keyconst': KeyConst,
             'kwcall': KwCall, 'mergeif': MergeIf, 'splitand': SplitAnd, 'whiletrue': WhileTrue, 'dotformat': DotFormat,
-            'listcopy': ListCopy, 'eafp': Eafp, 'filterloop': FilterLoop, 'closure': Closure}
+            'listcopy': ListCopy, 'eafp': Eafp, 'filterloop': FilterLoop, 'closure': Closure, 'annotate': Annotate,
+            'require': Require}
 
 
 def apply(name, src):
